@@ -177,22 +177,22 @@ NOT_APPLICABLE = {p: NOT_BUILT for p in
                   []}
 
 _MKT = ("Bounded exhaustive TLC model checking of spec/Market.tla with the REAL protocol constants (180-day minimum duration, 30-day cron interval; time jumps only between deal boundaries and scheduled cron epochs, so the state space is small and every behaviour is replayable 1:1): every interleaving of deposits, withdrawals, batch publication with invalid entries, both activation paths, settlement, sector termination and the per-epoch cron over <= 2 deals; formulas as invariants over state + event-derived ghosts and as action properties. Conformance: a transition tour of the model, TLC simulation behaviours and guided random schedules run on the real market actor with real miner actors as providers; every recorded step validated by TLC. ")
-_SEC = ("System-level conformance: guided random schedules of USER messages only (pre-commit, prove-commit, Window PoSt with skipped sets, fault / recovery declarations, terminations, extensions, compaction, withdrawals, block rewards, fault-plan injections) plus the per-epoch cron are run on the real miner, power, reward, cron and market actors under a scaled-down policy (4 deadlines x 6 epochs, 2 KiB sectors, partition size 2), miners created through the real power actor; after every message and tick the full projected state (every partition bitfield, memo, expiration queue, claim, cron queue, balance) is validated by TLC against the Layer-P formulas of spec/SectorsP.tla written from the protocol. ")
+_SEC = ("System-level conformance: guided random schedules of USER messages only (pre-commit, prove-commit, non-interactive commit, Window PoSt with skipped sets, fault / recovery declarations, terminations, extensions over several partitions and deadlines with claim declarations, compaction, DataCap allocations and ProveReplicaUpdates3 with verified pieces, withdrawals, block rewards, consensus-fault reports, disputes, fault-plan injections; every sixth trace is goal-directed towards a rare configuration: multi-deadline replica update / extension with claim drops, termination backlog with compaction, fee debt meeting a fault time-out) plus the per-epoch cron are run on the real miner, power, reward, cron and market actors under a scaled-down policy (4 deadlines x 6 epochs, 2 KiB sectors, partition size 2), miners created through the real power actor; after every message and tick the full projected state (every partition bitfield, memo, expiration queue, claim, cron queue, balance) is validated by TLC against the Layer-P formulas of spec/SectorsP.tla written from the protocol. ")
 LEVEL_TEXT = {
-    "C18": "spec/EVM.tla is total by construction (every byte string has exactly one outcome: stop/return, revert, or one of undefined / invalid / underflow / overflow / bad jump destination / memory beyond the 32-bit limit / memory cap / read-only violation); TLC checks totality (no deadlock), the stack bound, 'pc never inside push data', 'jump destinations = JUMPDEST bytes at instruction boundaries' and 'no storage write in a static frame' over every byte string up to a small length over reduced alphabets, in normal and static context (MC_EVM). Conformance: arbitrary byte strings (uniformly random, instruction-sequence grammar, mutated from valid generated programs) are deployed through the real EAM as runtime code, run as init code (and the contracts they create are then called), and run beneath STATICCALL at nesting depth 1-3 through CALL / DELEGATECALL / STATICCALL proxy chains with code biased towards SSTORE, TSTORE, LOG0-4, CREATE, CREATE2, SELFDESTRUCT and CALL-with-value. TLC validates every recorded interpreter step: stack depth <= 1024, memory size within the bound, every taken JUMP/JUMPI lands one past a byte that the specification's jump-destination analysis accepts; at the end of every run: no panic, no unexplained exhaustion of the step budget, the outcome class is a defined one and equals the specification's whenever the program stays inside the specified instruction set (the static frames are re-executed by the specification with static = TRUE: a state-changing instruction must end the frame); after every static call the whole state tree (code, state root and balance of every actor, the set of actors) and the event list are unchanged.",
-    "C01": _SEC + "C01 formulas: TotalFilConstant, LedgerDelta (every actor's balance change equals the effective transfers of the invocation tree, failed messages change nothing), MinerSolvent, MarketSolvent (Market suite), paych Solvent (Paych suite), RewardNeverFails; also under injected failures of tolerated nested sends.",
-    "C02": _SEC + "C02 formulas: PowerIsActive (claim = sum over proven, non-faulty, non-terminated sectors recomputed from partition bitfields), TotalsOK.",
+    "C18": "spec/EVM.tla is total by construction (every byte string has exactly one outcome: stop/return, revert, or one of undefined / invalid / underflow / overflow / bad jump destination / memory beyond the 32-bit limit / memory cap / read-only violation); TLC checks totality (no deadlock), the stack bound, 'pc never inside push data', 'jump destinations = JUMPDEST bytes at instruction boundaries' and 'no storage write in a static frame' over every byte string up to a small length over reduced alphabets, in normal and static context (MC_EVM). Conformance: arbitrary byte strings (uniformly random, instruction-sequence grammar, mutated from valid generated programs) are deployed through the real EAM as runtime code, run as init code (and the contracts they create are then called), and run beneath STATICCALL at nesting depth 1-3 through CALL / DELEGATECALL / STATICCALL proxy chains (the VM, like the repository's reference test_vm, does not police events in read-only mode: the actor must refuse by itself), a stack-limit edge family (1024 one-word pushes followed by ONE instruction of every kind), with code biased towards SSTORE, TSTORE, LOG0-4, CREATE, CREATE2, SELFDESTRUCT and CALL-with-value. TLC validates every recorded interpreter step: stack depth <= 1024, memory size within the bound, every taken JUMP/JUMPI lands one past a byte that the specification's jump-destination analysis accepts; at the end of every run: no panic, no unexplained exhaustion of the step budget, the outcome class is a defined one and equals the specification's whenever the program stays inside the specified instruction set (the static frames are re-executed by the specification with static = TRUE: a state-changing instruction must end the frame); after every static call the whole state tree (code, state root and balance of every actor, the set of actors) and the event list are unchanged.",
+    "C01": _SEC + "C01 formulas: TotalFilConstant, LedgerDelta (every actor's balance change equals the effective transfers of the invocation tree, failed messages change nothing), MinerSolvent, MarketSolvent (Market suite), paych Solvent (Paych suite), RewardNeverFails, MarketNoStranding (what the market holds beyond the escrow balances never changes through a market operation; also an action property of the model-checked Market module); also under injected failures of tolerated nested sends.",
+    "C02": _SEC + "C02 formulas: PowerIsActive (claim = sum over proven, non-faulty, non-terminated sectors recomputed from partition bitfields), TotalsOK (consensus-minimum rule), ProvenOnlyByPoSt / RecoveredOnlyByPoSt (a sector enters the active set only through an accepted Window PoSt naming its partition; a faulty one only if it was declared recovering), SkippedFaulted, MissedPoStFaulted (every deadline that closes during a tick leaves the live sectors of its unproven partitions faulty or terminated).",
     "C03": _SEC + "C03 formulas: PledgeExact, DepositsExact, VestExact, NonNegLedgers, NetPledgeTotal (literal; known finding F1 is reported when only the exact adjusted identity holds), NetPledgeNonNeg, PledgeTotalNeverBlocks.",
-    "C04": _SEC + "C04 formulas: SetsNest, OnePartition, PartMemos, DlMemos, EarlyDls, QueueOK, AllocCovers.",
-    "C05": _SEC + "C05 formulas: CronNeverFails, NoBalanceInvariantBroken, NoPanic, CronScheduled, CronWhileFunded (known finding F2), DeadlineCurrent, QueueNotStale, NoOverdueExpiry, EarlyTermsScheduled; CronOK in the Market suite.",
-    "C09": "Bounded exhaustive TLC model checking of spec/VerifReg.tla (verifier/client grants, allocation transfers with extension requests, claim batches with repeated / foreign / mismatched / expired entries in both all-or-nothing modes, expirations, removals, term extensions, DataCap removal) + conformance: transition tour, simulation behaviours and guided random schedules on the real datacap + verifreg + multisig(root) + miner actors; every step validated by TLC. Formulas: SupplyIsSum, SupplyIsMintedMinusBurnt, RegistryHoldsAllocs, AllowanceExact, MintOnlyByGrant, AllocFate, ClaimsFromAllocs, IdsFresh.",
+    "C04": _SEC + "C04 formulas: SetsNest, OnePartition, PartMemos, DlMemos, EarlyDls, QueueOK, DlQueueCovers (the deadline-level expiration queue names every partition at every epoch of that partition's own queue), AllocCovers, NumbersFresh (the allocated set only grows; new numbers were unallocated).",
+    "C05": _SEC + "C05 formulas: CronNeverFails, NoBalanceInvariantBroken, NoPanic, CronScheduled, CronWhileFunded (known finding F2), DeadlineCurrent, QueueNotStale, NoOverdueExpiry, EarlyTermsScheduled, EarlyTermsProgress (bounded liveness: of the sectors awaiting early-termination processing at least one has been processed two challenge windows later); CronOK in the Market suite.",
+    "C09": "Bounded exhaustive TLC model checking of spec/VerifReg.tla (verifier/client grants, allocation transfers with extension requests, claim batches with repeated / foreign / mismatched / expired entries in both all-or-nothing modes, expirations, removals, term extensions, DataCap removal) + conformance: transition tour, simulation behaviours and guided random schedules on the real datacap + verifreg + multisig(root) + miner actors; every step validated by TLC. Formulas: SupplyIsSum, SupplyIsMintedMinusBurnt, RegistryHoldsAllocs, AllowanceExact (the allowance falls only by a grant that arrived at the client; clients that cannot receive tokens are among the generated ones), MintOnlyByGrant, AllocFate, ClaimsFromAllocs, IdsFresh.",
     "C10": "Bounded exhaustive TLC model checking of spec/Claims.tla, the composition of the verified registry (spec/VerifReg.tla) with one miner's sectors, under the driver's scaled-down policy (4 deadlines x 6 epochs, 72-epoch minimum sector life, 48-epoch end-of-life claim-drop period, claim terms of 24..4000 epochs) so that every behaviour replays 1:1: allocation transfers, non-interactive commitment of a CC sector, ProveReplicaUpdates3 / PreCommit + ProveCommitSectors3 with piece manifests naming open, stale, repeated and foreign allocation ids, ExtendSectorExpiration2 with every maintain / drop declaration shape (missing, partial, repeated, foreign and previously dropped ids; one or two declarations per message, the same sector twice), ExtendClaimTerms, RemoveExpiredClaims / RemoveExpiredAllocations, TerminateSectors, and time jumps to every epoch where something changes (first proof, deadline mutability, drop period, expiration, expiry cron, term end, allocation expiry); the C10 formulas are invariants (Backed = WeightBacked + ClaimStartsAfterActivation + ExpirationWithinTerms with one witness set of claims) and action properties (ExtendPastMaxOnlyByDrop, DroppedWeightGone, WeightChangesOnlyByDecl, ClaimTermsMonotone, ClaimRemovalOnlyExpired, AllocRemovalOnlyExpired). With the extension rule as first written (constants DupIdsAllowed / MultiDeclAllowed, spec/MC_Claims_F5.cfg, MC_Claims_F7.cfg) TLC finds the repeated-id and the twice-declared-sector counterexamples in under a minute. Conformance: a transition tour of the model, TLC simulation behaviours and guided random schedules (both onboarding paths, sectors living ~3000 epochs on the pre-commit path) run on the real datacap, verified-registry, miner, power and cron actors (miner created through the power actor, cron every epoch, the driver submits every due Window PoSt); after every call the registry (from its state AND through GetClaims), every sector's activation / expiration / power-base epoch / verified weight / partition flags and the power actor's claim are validated by TLC: Layer P = the formulas above plus WeightIsSpaceTimesDuration, GetClaimsAgrees, QAPowerFalls, RejectedIsNoop; Layer R = verdict, batch results and post-state equal the model's. The registry-only clauses are additionally decided by the VerifReg suite (ClaimTermsMonotone, ClaimRemovalOnlyExpired).",
     "C17": "spec/Words.tla + spec/EVM.tla are an executable TLA+ transcription of the Yellow Paper / EIP semantics of the arithmetic, comparison, bitwise, stack, memory, storage, transient-storage, call-data/code/return-data copying, hashing (uninterpreted), control-flow and RETURN/REVERT instructions (Words.tla is cross-checked against Python integers on 5 685 generated vectors). TLC model-checks the machine's own invariants and totality over every byte string up to a small length (MC_EVM). Conformance: generated programs (every instruction over the boundary lattice: all pairs for binary, sampled triples for ternary instructions; memory/copy/storage/jump case families; deliberately ill-formed programs; all tiny byte strings of the model's alphabets; generated multi-instruction programs with loops, jumps, memory growth, storage and calldata) are deployed through the real EAM and run in the real interpreter on the recording VM with a per-step observer; TLC re-executes every program in the specification and compares every recorded step (pc, opcode, stack content, memory size) and the final outcome class, return/revert data and contract storage (read from the KAMT and via GetStorageAt).",
     "C06": _MKT + "C06 formulas: LockedIsObligation, LockedLeqEscrow, TotalsMatch, WithdrawExact, EscrowOnlyOwnMoves.",
     "C07": _MKT + "C07 formulas: EscrowExplained (every party's escrow equals deposits - withdrawals +/- the ideal per-deal payment formula at every moment, whatever the settlement schedule), BurnExact, EndLegit.",
     "C08": _MKT + "C08 formulas: IdsFresh, NoTwinDeals, PendingIsLive, PublishRules, PublishFunded, ActivationRules, ActivatedOnce.",
     "C14": _SEC + "C14 formulas: VestShape (the vesting table is sorted, positive, sums to locked_funds), DepositVestsOnSchedule (a fresh miner holds exactly the 180-step schedule of its creation deposit counted from its creation epoch), VestNotOverdue (with the cron running no matured entry stays locked for more than two challenge windows; day-long ticks make entries mature), WithdrawRepaysDebt (what was owed before a successful withdrawal was burnt in that call; the payout never exceeds the request), RewardVestsOnSchedule (each ApplyRewards / creation deposit adds exactly the linear 180-step schedule, quantised to the miner's proving-period offset, recomputed in the specification), NoEarlyUnlock (locked funds decrease only by entries whose epoch has passed, or to pay the miner's own penalties), WithdrawBounded (the amount sent equals min(requested, balance - locked - pre-commit deposits - pledge) after full debt repayment, goes to the beneficiary only, is refused for other callers and while early terminations are pending). Beneficiary quota / expiry / who-may-withdraw are decided in the MinerControl suite (exhaustive model + tour + real miner).",
-    "C15": _SEC + "C15 formulas: ContinuedFaultCharged (for every deadline that closes, the faulty QA power at that moment priced by the protocol's own fee function with the estimates the callback reads -- computed per epoch by the driver -- is at most what left the miner as burn or new fee debt in that tick), DisputePenalised (a successful dispute takes power and money; with the transfer to the disputer failing it charges exactly what its twin execution on a checkpoint charges when the transfer succeeds), DebtOnlyRepaidByBurn (fee debt never just disappears), miners drained to exactly their locked deposit so that penalties become debt, DebtBlocks (while fee debt is outstanding and cannot be repaid, pre-commit, recovery declaration and withdrawal are refused), BurnMonotone / NoFlowFromBurn (the burnt-funds actor only receives; every penalty transfer is non-negative and none goes to the miner or its owner), ConsensusFaultPaid (burnt + paid to reporter + new fee debt = the consensus-fault penalty; the reporter's share never exceeds what was taken; also with the reporter transfer failing by fault-plan injection), TerminationFeeFloor (every sector whose early termination is processed pays at least 2% of its pledge, and the total never exceeds the cap); that a missed or skipped proof removes the power is decided by PowerIsActive (C02) and the lifecycle model binding.",
+    "C15": _SEC + "C15 formulas: ContinuedFaultCharged (for every deadline that closes, the faulty QA power at that moment priced by the protocol's own fee function with the estimates the callback reads -- computed per epoch by the driver -- is at most what left the miner as burn or new fee debt in that tick), DisputePenalised (a successful dispute takes power and money; with the transfer to the disputer failing it charges exactly what its twin execution on a checkpoint charges when the transfer succeeds), DebtOnlyRepaidByBurn (fee debt never just disappears), miners drained to exactly their locked deposit so that penalties become debt, DebtBlocks (while fee debt is outstanding and cannot be repaid, pre-commit, recovery declaration and withdrawal are refused), BurnMonotone / NoFlowFromBurn (the burnt-funds actor only receives; every penalty transfer is non-negative and none goes to the miner or its owner), ConsensusFaultPaid (burnt + paid to reporter + new fee debt = the consensus-fault penalty; the reporter's share never exceeds what was taken; also with the reporter transfer failing by fault-plan injection), TerminationFeeFloor (every sector whose early termination is processed pays at least 2% of its pledge, and the total never exceeds the cap), CronTerminationFee (the same floor for the sectors that leave the early-termination queues, or are terminated early and processed at once, during a tick); that a missed or skipped proof removes the power is decided by PowerIsActive (C02) and the lifecycle model binding.",
     "C13": "Bounded exhaustive TLC model checking of spec/MinerControl.tla (all interleavings of the owner, worker and beneficiary hand-over protocols, withdrawals, the cron pending-worker step and epoch advances by owner, proposed owner, beneficiary, nominee and strangers; C13 formulas as action properties over a ghost that re-derives approvals from the accepted calls) + conformance: TLC-exported behaviours and random schedules run on a real miner actor created through the power actor; each recorded step is validated by TLC.",
     "C12": "Bounded exhaustive TLC model checking of spec/Multisig.tla (every interleaving of propose/approve/cancel by signers and outsiders with admin transactions and re-entrant self-calls executed inside the approving step, within small constants) + conformance: TLC-exported behaviours and random schedules run on the real multisig actor (created through init, inner sends really executed) and each recorded step is validated by TLC against the C12 formulas and the spec's transition function.",
     "C16": "Bounded exhaustive TLC model checking of spec/Paych.tla (all voucher/settle/collect interleavings within small constants, C16 formulas as invariants and action properties) + conformance: TLC-exported behaviours and random schedules are executed on the real paych actor and every recorded step is validated by TLC against the same formulas and the spec's transition relation.",
